@@ -84,6 +84,93 @@ impl mahf::problems::Evaluate for Probing {
     }
 }
 
+/// A user-written mutation operator (public `Mutation` trait) run through the `mutation()` helper: writes `s` into every
+/// solution it is handed; at its `fail_at`-th call (1-based, 0 = never) it fails, either after having written
+/// (`validate_first = false`: move, then check) or before touching the solution.
+#[derive(Clone, Serialize)]
+struct UserMutation {
+    s: u32,
+    fail_at: usize,
+    validate_first: bool,
+    #[serde(skip)]
+    seen: Arc<AtomicU32>,
+}
+impl mahf::components::mutation::Mutation<P> for UserMutation {
+    fn mutate(&self, solution: &mut u32, _: &P, _: &mut State<P>) -> ExecResult<()> {
+        let k = self.seen.fetch_add(1, Ordering::SeqCst) as usize + 1;
+        if k == self.fail_at && self.validate_first {
+            return Err(eyre::eyre!("the step would leave the trust region"));
+        }
+        *solution = self.s;
+        if k == self.fail_at {
+            return Err(eyre::eyre!("left the trust region"));
+        }
+        Ok(())
+    }
+}
+impl Component<P> for UserMutation {
+    fn execute(&self, problem: &P, state: &mut State<P>) -> ExecResult<()> {
+        mahf::components::mutation::mutation(self, problem, state)
+    }
+}
+
+/// A user-written selection (member `i` twice) through the `selection()` helper, optionally failing.
+#[derive(Clone, Serialize)]
+struct UserSelection {
+    i: usize,
+    fail: bool,
+}
+impl mahf::components::selection::Selection<P> for UserSelection {
+    fn select<'a>(&self, population: &'a [Individual<P>], _: &mut mahf::Random) -> ExecResult<Vec<&'a Individual<P>>> {
+        if self.fail {
+            return Err(eyre::eyre!("nothing to select"));
+        }
+        Ok(vec![&population[self.i], &population[self.i]])
+    }
+}
+impl Component<P> for UserSelection {
+    fn execute(&self, problem: &P, state: &mut State<P>) -> ExecResult<()> {
+        mahf::components::selection::selection(self, problem, state)
+    }
+}
+
+/// A user-written replacement (parents followed by offspring) through the `replacement()` helper, optionally failing
+/// after it has been handed both populations.
+#[derive(Clone, Serialize)]
+struct UserReplacement {
+    fail: bool,
+}
+impl mahf::components::replacement::Replacement<P> for UserReplacement {
+    fn replace(&self, mut parents: Vec<Individual<P>>, offspring: Vec<Individual<P>>, _: &mut mahf::Random) -> ExecResult<Vec<Individual<P>>> {
+        if self.fail {
+            return Err(eyre::eyre!("no survivors"));
+        }
+        parents.extend(offspring);
+        Ok(parents)
+    }
+}
+impl Component<P> for UserReplacement {
+    fn execute(&self, problem: &P, state: &mut State<P>) -> ExecResult<()> {
+        mahf::components::replacement::replacement(self, problem, state)
+    }
+}
+
+/// After a failing helper: 1 = the population(s) are still on the stack (several are merged into one, bottom first,
+/// so that the record shows every individual that is still in the state), 0 = the stack lost them (an empty population
+/// stands in, the driver goes on from there).
+fn settle_stack(state: &mut State<'static, P>) -> i64 {
+    let mut pops = state.populations_mut();
+    if pops.len() == 0 {
+        pops.push(Vec::new());
+        return 0;
+    }
+    while pops.len() > 1 {
+        let top = pops.pop();
+        pops.current_mut().extend(top);
+    }
+    1
+}
+
 fn comp(problem: &P, state: &mut State<'static, P>, c: Box<dyn Component<P>>) -> Value {
     match caught(|| c.execute(problem, state)) {
         Ok(Ok(())) => r("ok", 0),
@@ -224,6 +311,34 @@ fn exec(problem: &P, state: &mut State<'static, P>, a: &Value, k: usize) -> Valu
                 Err(_) => r("panic", counting.calls() as i64),
             }
         }
+        "user_mutation" | "user_mutation_v" => {
+            let c = UserMutation { s, fail_at: i.wrapping_add(1), validate_first: op == "user_mutation_v", seen: Arc::new(AtomicU32::new(0)) };
+            match caught(|| c.execute(problem, state)) {
+                Ok(Ok(())) => r("ok", 0),
+                Ok(Err(_)) => {
+                    let kept = settle_stack(state);
+                    r("err", kept)
+                }
+                Err(_) => r("panic", 0),
+            }
+        }
+        "user_select_replace" => {
+            // s = 0: both succeed; 1: the selection fails; 2: the replacement fails
+            let sel = UserSelection { i, fail: s == 1 };
+            let rep = UserReplacement { fail: s == 2 };
+            let res = caught(|| -> ExecResult<()> {
+                sel.execute(problem, state)?;
+                rep.execute(problem, state)
+            });
+            match res {
+                Ok(Ok(())) => r("ok", 0),
+                Ok(Err(_)) => {
+                    let kept = settle_stack(state);
+                    r("err", kept)
+                }
+                Err(_) => r("panic", 0),
+            }
+        }
         "update_best" => comp(problem, state, BestIndividualUpdate::new()),
         "init_run" => {
             // what the init phase of a configuration holding these components does at the start of a run
@@ -249,6 +364,7 @@ fn fresh_state(problem: &P, k: usize) -> State<'static, P> {
     let mut pops = Populations::<P>::new();
     pops.push(Vec::new());
     state.insert(pops);
+    state.insert(mahf::Random::new(1));
     state.insert_evaluator(Sequential::<P>::new());
     // the components' own init calls create Evaluations / BestIndividual / ElitistArchive
     PopulationEvaluator::new::<P>().init(problem, &mut state).unwrap();
@@ -312,7 +428,7 @@ pub fn main(args: &Args) -> usize {
                     let narch = state.borrow::<ElitistArchive<P>>().elitists().len();
                     let s = rng.gen_range(1..=nsols);
                     let a = loop {
-                        let pick = rng.gen_range(0..100);
+                        let pick = rng.gen_range(0..108);
                         let i = if n > 0 { rng.gen_range(1..=n) } else { 0 };
                         break match pick {
                             0..=11 if n < 12 => act("new", 0, s),
@@ -340,6 +456,8 @@ pub fn main(args: &Args) -> usize {
                             76 => act("evaluate_nested", 0, rng.gen_range(1..4)),
                             77..=85 if all_eval => act("update_best", 0, 0),
                             86 => act("init_run", 0, 0),
+                            100..=104 if n > 0 => act(if rng.gen_bool(0.5) { "user_mutation" } else { "user_mutation_v" }, rng.gen_range(0..=n), s),
+                            105..=107 if n > 0 && n < 11 => act("user_select_replace", i, rng.gen_range(0..3)),
                             87..=94 if all_eval => act("archive_update", 0, 0),
                             95..=99 if n + narch < 14 => act("archive_into_population", 0, 0),
                             _ => continue,
